@@ -83,6 +83,37 @@ func discover(row stackRow) ([]triple, string, error) {
 		if p == nil {
 			p = ms.ByName(protoreflect.Name("Pull" + x + "s")) // GetEnterLeaveEvent / PullEnterLeaveEvents
 		}
+		if p == nil && u == nil {
+			// a Get/Pull pair whose Pull is not named after the Get (accesspb: GetLastAccessAttempt / PullAccessAttempts):
+			// paired by the resource type - the one server-streaming Pull* method with updates_only whose changes carry
+			// exactly one field of the Get's output type (collection-wide Pulls carry old and new value: two)
+			var cands []protoreflect.MethodDescriptor
+			for j := 0; j < ms.Len(); j++ {
+				c := ms.Get(j)
+				if !strings.HasPrefix(string(c.Name()), "Pull") || !c.IsStreamingServer() || c.Input().Fields().ByName("updates_only") == nil {
+					continue
+				}
+				if ms.ByName(protoreflect.Name("Get"+strings.TrimPrefix(string(c.Name()), "Pull"))) != nil {
+					continue // this Pull belongs to the Get of its own name
+				}
+				cf := c.Output().Fields().ByName("changes")
+				if cf == nil || cf.Message() == nil {
+					continue
+				}
+				n := 0
+				for k := 0; k < cf.Message().Fields().Len(); k++ {
+					if fd := cf.Message().Fields().Get(k); fd.Message() != nil && !fd.IsList() && !fd.IsMap() && fd.Message().FullName() == g.Output().FullName() {
+						n++
+					}
+				}
+				if n == 1 {
+					cands = append(cands, c)
+				}
+			}
+			if len(cands) == 1 {
+				p = cands[0]
+			}
+		}
 		if p == nil || !p.IsStreamingServer() {
 			continue
 		}
@@ -353,7 +384,7 @@ func (s *session) randMask(md protoreflect.MessageDescriptor, nilP int, nested b
 	if s.r.Intn(15) == 0 {
 		return &fieldmaskpb.FieldMask{}
 	}
-	// read masks come from the path tree (nested, through repeated messages); update masks stay top-level
+	// nested: paths from the path tree (below message fields, through repeated messages); else top-level fields only
 	paths := s.g.TopPaths(md, 2)
 	if nested {
 		paths = s.g.ReadMaskPaths(md, 2)
@@ -471,7 +502,7 @@ func (s *session) doUpdate() {
 		capLists(payload.ProtoReflect(), 1)
 	}
 	req.Set(pf, protoreflect.ValueOfMessage(payload.ProtoReflect()))
-	um := s.randMask(s.t.resource, 50, false)
+	um := s.randMask(s.t.resource, 50, s.r.Intn(2) == 0) // half of the update masks are nested (paths below message fields)
 	if um != nil && len(um.Paths) == 0 {
 		um = nil
 	}
